@@ -285,6 +285,17 @@ pub fn parse_ops(s: &str) -> Vec<Op> {
     s.split_whitespace().map(Op::parse).collect()
 }
 
+/// The weight an insert's value carries (what the by-value weigher returns). Codes
+/// 250..=252 stand for weights whose sums cross `u32::MAX`.
+pub fn weight_of(code: u8) -> u32 {
+    match code {
+        250 => 1 << 31,
+        251 => 3 << 30,
+        252 => u32::MAX,
+        w => w as u32,
+    }
+}
+
 /// What an operation returned.
 #[derive(Clone, Debug, PartialEq, Eq, Hash)]
 pub enum Obs {
@@ -359,7 +370,7 @@ impl Sut {
         let obs = match self {
             Sut::U { c, clock } => match op {
                 Op::Ins(k, w) => {
-                    c.insert(K::new(k), V::new(vid, w as u32));
+                    c.insert(K::new(k), V::new(vid, weight_of(w)));
                     Obs::Unit
                 }
                 Op::Get(k) => Obs::Val(c.get(&K::probe(k)).map(|v| (v.id, v.w))),
@@ -389,7 +400,7 @@ impl Sut {
             },
             Sut::S { c, clock } => match op {
                 Op::Ins(k, w) => {
-                    c.insert(K::new(k), V::new(vid, w as u32));
+                    c.insert(K::new(k), V::new(vid, weight_of(w)));
                     Obs::Unit
                 }
                 Op::Get(k) => Obs::Val(c.get(&K::probe(k)).map(|v| (v.id, v.w))),
@@ -566,6 +577,22 @@ pub fn alphabet(cfg: &Cfg) -> Vec<Op> {
             }
             if cfg.a > 0 {
                 a.push(Op::Adv(1));
+            }
+            if s && !cfg.autosync {
+                a.push(Op::Sync);
+            }
+        }
+        // weights whose sums cross u32::MAX (capacity 2^33)
+        "bigw" => {
+            for k in 0..n {
+                for w in [250u8, 251, 252] {
+                    a.push(Op::Ins(k, w));
+                }
+            }
+            per_key(&mut a, Op::Get, n);
+            per_key(&mut a, Op::Inv, n.min(2));
+            if cfg.a > 0 && cfg.has_expiry() {
+                a.push(Op::Adv(2));
             }
             if s && !cfg.autosync {
                 a.push(Op::Sync);
